@@ -96,10 +96,22 @@ def ismin_line(case, Z):
     return "ismin %s Z=%s" % (q(case), C.fmt_set(Z))
 
 
-def case_lines(case):
+def witness_of(got):
+    r = (got or {}).get("min", "")
+    if r.startswith("{"):
+        return [int(t) for t in r.strip("{}").split(",") if t]
+    return None
+
+
+def case_lines(case, got=None):
+    """requests for one case; when the implementation returned a set, a second request validates that very
+    set with the proved decider C11.minSepDec (theorem C11.minSepDec_iff)"""
     ls = []
     if case.get("call", "min") != "ismin":
         ls.append(min_line(case))
+        w = witness_of(got)
+        if w is not None:
+            ls.append(ismin_line(case, w))
     Zs = [case["Z"]] if case.get("call") == "ismin" else ([] if case.get("call") == "min" else case.get("Zs", []))
     ls += [ismin_line(case, Z) for Z in Zs]
     return ls
@@ -117,6 +129,10 @@ def verdict(case, got, answers):
         k = 1
         mins = [s for s in m["mins"].split(";") if s]
         r = got["min"]
+        wit_ok = None
+        if witness_of(got) is not None:
+            wit_ok = kv(answers[1])["spec"] == "T"
+            k = 2
         if m["ans"].startswith("err"):
             pass                                   # outside the quantifier (never generated)
         elif r.startswith("err") or r.startswith("bad"):
@@ -127,13 +143,13 @@ def verdict(case, got, answers):
                 res.append(("incomplete", {"call": "min"}, "returned None although separators with I<=Z<=R exist, "
                             "e.g. the I-minimal ones %s" % m["mins"]))
         else:
-            if r not in mins:
+            if not wit_ok:
                 why = "no separator with I<=Z<=R exists" if m["exists"] == "F" else "I-minimal separators are " + m["mins"]
-                res.append(("unsound" if m["exists"] == "F" or not _is_sep(case, r) else "not-minimal", {"call": "min"},
+                res.append(("unsound" if m["exists"] == "F" else "not-minimal", {"call": "min"},
                             "returned %s which is not an I-minimal separator (%s)" % (r, why)))
         if not res and r != m["ans"]:
             res.append(("corr:witness", {"call": "min"}, "implementation %s model %s" % (r, m["ans"])))
-    for Zs, a in zip(sorted(got["ismin"], key=lambda s: (len(s), s)) if False else list(got["ismin"]), answers[k:]):
+    for Zs, a in zip(list(got["ismin"]), answers[k:]):
         m = kv(a)
         r = got["ismin"][Zs]
         Z = [int(t) for t in Zs.strip("{}").split(",") if t]
@@ -157,15 +173,11 @@ def verdict(case, got, answers):
     return res
 
 
-def _is_sep(case, zs):
-    return True
-
-
 def fails(case, drv, kinds=None):
     if not in_quantifier(case):
         return False
     got = impl(case)
-    ans = [drv.ask(l) for l in case_lines(case)]
+    ans = [drv.ask(l) for l in case_lines(case, got)]
     v = [r for r in verdict(case, got, ans) if not r[0].startswith("corr")]
     if kinds:
         v = [r for r in v if r[0] in kinds]
@@ -324,8 +336,8 @@ def run(ctx):
     add_candidates(ctx, cases)
     gots = C.pmap(impl, cases, chunksize=64)
     lines, spans = [], []
-    for c in cases:
-        ls = case_lines(c)
+    for c, got in zip(cases, gots):
+        ls = case_lines(c, got)
         spans.append((len(lines), len(ls)))
         lines += ls
     ans = C.lean_batch(lines)
@@ -373,7 +385,7 @@ def report(ctx, bad, corr):
             c = single(case, call)
             small = shrink_case(c, lambda cc: fails(cc, drv, kinds=(kind,)), optional_sets=("Z", "I", "R"))
             got = impl(small)
-            ls = case_lines(small)
+            ls = case_lines(small, got)
             out.violation(small, {"kind": kind, "detail": detail, "impl": got, "lean_requests": ls,
                                   "lean": [drv.ask(l) for l in ls], "original_case": single(case, call),
                                   "disagreements_total": sum(1 for b in bad if b[1] == kind)})
@@ -388,7 +400,7 @@ def replay(ctx, payload):
     case = payload["case"]
     drv = C.Driver()
     got = impl(case)
-    ls = case_lines(case)
+    ls = case_lines(case, got)
     ans = [drv.ask(l) for l in ls]
     drv.close()
     print("implementation:", got)
@@ -446,8 +458,8 @@ def c15_eval(case, fam, order_seed):
         return r
     if r.startswith("bad"):
         return "found:INVALID:not a set of nodes"
-    m = kv(_drv().ask(min_line(case)))
-    return "found:valid" if r in m["mins"].split(";") else "found:INVALID:not an I-minimal separator"
+    m = kv(_drv().ask(ismin_line(case, witness_of(got))))
+    return "found:valid" if m["spec"] == "T" else "found:INVALID:not an I-minimal separator"
 
 
 def c15_expected(cases):
